@@ -1,5 +1,6 @@
 import Rare.Drv.Expr
 import Rare.Model.C19Float
+import Rare.Proofs.C19Lit
 /-!
 Driver ops of C19.
 
@@ -16,6 +17,30 @@ is the implementation-vs-independent-evaluator differential run inside the harne
 answer is the constant `ok agree`.
 
   tok <formula hex>   token list of the tokenizer model (kind:hex,…), for debugging.
+
+  gram <formula hex>
+
+the SPECIFICATION's answer to "is this a formula": `accepts` of `Spec/C19Grammar.lean` (token grammar,
+recursively through groups) – `ok accept` / `ok reject`; the harness answers from `stdmath.Compile`.
+(`unmodelled <why>` for literal spellings outside the modelled grammar; `grammar-model-disagree` if
+the model's `compile` and the grammar ever differ, which `compile_iff_grammar` excludes.)
+
+  lit <base 2|8|10|16> <prefix letter hex | -> <digits hex>
+
+the value of the literal `0<prefix><digits>` from the specification (`baseVal`, then float64 of the
+integer) as `ok <bits>`; the harness compiles and evaluates the text.
+
+  impl <implied hex> <explicit hex> <matches> <keys>
+
+a formula with implied multiplications and the same formula with `*` written out: both compile, the
+second parse is `Tree.explicit` of the first, and the value is the same (`ok <bits>`); the harness
+evaluates both texts with the real code and answers `ok <bits>` if they agree bit for bit.
+
+  meta <f1 hex> <f2 hex> <matches> <keys>
+
+metamorphic "constants equal bound variables": `f2` is `f1` with numeric constants replaced by
+variables that `<keys>` binds to the same values; both are compiled and evaluated (here by the
+model, in the harness by the real code) and must agree bit for bit; answer `ok <bits>`.
 
 Plus the shared `expr` op (`{! …}` inside templates).
 -/
@@ -67,8 +92,57 @@ def binding (ms : List Float) (ks : List (Bytes × Float)) : Binding F.FV :=
 def tokKind : TokT → String
   | .lit => "L" | .group => "G" | .op => "O" | .mod => "M"
 
+def valAns (v : F.FV) : String :=
+  match v with
+  | none => "unmodelled inexact"
+  | some v => if v.isNaN then "ok nan" else "ok " ++ hex16 v.toBits
+
+def gramAns (fb : Bytes) : String :=
+  let r := compile F.arith fb
+  match r with
+  | .error (.unmodelled w) => "unmodelled " ++ w
+  | _ =>
+    let a := accepts tok (fun v => (classify F.arith v).isSome) (fun o => opKeys.contains o) fb
+    let ok := match r with | .ok _ => true | .error _ => false
+    if a != ok then "grammar-model-disagree" else if a then "ok accept" else "ok reject"
+
 def handle (args : List String) : String :=
   match args with
+  | ["gram", f] =>
+    match Hex.dec f with
+    | some fb => gramAns fb
+    | none => "bad-args"
+  | ["lit", base, pre, ds] =>
+    match base.toNat?, Hex.dec pre, Hex.dec ds with
+    | some b, some _, some d =>
+      if d.isEmpty || !d.all (isBaseDigit b) then "ok not-a-literal"
+      else if baseVal b d > 9223372036854775807 then "ok out-of-range"
+      else valAns (F.arith.ofInt (baseVal b d))
+    | _, _, _ => "bad-args"
+  | ["impl", f1, f2, ms, ks] =>
+    match Hex.dec f1, Hex.dec f2, parseMatches ms, parseKeys ks with
+    | some b1, some b2, some m, some k =>
+      match compile F.arith b1, compile F.arith b2 with
+      | .ok (t1, e1), .ok (t2, e2) =>
+        if t1.explicit != t2 then "explicit-parse-differs"
+        else
+          let v1 := e1.eval F.arith (binding m k)
+          let v2 := e2.eval F.arith (binding m k)
+          if valAns v1 != valAns v2 then "explicit-value-differs" else valAns v1
+      | .error e, _ => errStr e
+      | _, .error e => errStr e
+    | _, _, _, _ => "bad-args"
+  | ["meta", f1, f2, ms, ks] =>
+    match Hex.dec f1, Hex.dec f2, parseMatches ms, parseKeys ks with
+    | some b1, some b2, some m, some k =>
+      match compile F.arith b1, compile F.arith b2 with
+      | .ok (_, e1), .ok (_, e2) =>
+        let v1 := e1.eval F.arith (binding m k)
+        let v2 := e2.eval F.arith (binding m k)
+        if valAns v1 != valAns v2 then "meta-value-differs" else valAns v1
+      | .error e, _ => errStr e
+      | _, .error e => errStr e
+    | _, _, _, _ => "bad-args"
   | ["math", f, ms, ks] =>
     match Hex.dec f, parseMatches ms, parseKeys ks with
     | some fb, some m, some k =>
